@@ -30,7 +30,7 @@ META = {
         "unit level: every text of <= N line shapes {blank, comment, call continued "
         "over two lines, decorated class, indented statement, statement preceded by a "
         "2-byte / 4-byte UTF-8 character, tab-indented statement, CRLF-terminated "
-        "statement, docstring, nested call} x every AST node of the text: "
+        "statement, docstring, nested call, comment / string / line start with FF, VT, FS, GS, NEL, LS, PS} x every AST node of the text: "
         "LinenoColumner.error_message(Error(node)) must name (line, column) = position "
         "of the node's first character (asttokens text range); system level: every `At "
         "line L and column C` of every report over the single-deviation stream must be "
@@ -61,6 +61,11 @@ SHAPES = [
     "c = 1\r",
     '"""Doc."""',
     "v = [p, (q, r)]",
+    # characters which ``str.splitlines`` takes for line boundaries but Python does not
+    "# form\x0cfeed \x0b \x1c in a comment",
+    "w = 'a\u2028b' + t",
+    "u = 'a\x85b\x1dc\u2029' + t",
+    "\x0cz = g(1)",
 ]
 
 
